@@ -178,7 +178,7 @@ def specs():
         # ---- units of trace2.cxx
         S[d + "sigmaeq"] = (lambda st: lambda rng: (lambda e, A: (e, [fns("sqrt", [A.dev().frob(A.dev()) * Q2(Fraction(3, 2))])]))(*st(rng)))(st)
 
-        def conv(rng, two=two, N=N, to_pk2=True):
+        def conv(rng, st=st, N=N, to_pk2=True):
             def f(A, U):
                 if to_pk2:
                     return (adj(U) * A * adj(U) * (Q2(1) / U.det())).mandel(N)
